@@ -2016,6 +2016,10 @@ class State(object):
             else:
                 new_dst = dst
             new_dst = expr_simp(new_dst)
+            if dst.is_mem() and not new_dst.is_mem():
+                # The destination has to stay a memory cell (@32[c?(a,b)]
+                # must not become c?(@32[a],@32[b])): simplify the pointer only
+                new_dst = ExprMem(expr_simp(new_ptr), dst.size)
             new_src = expr_simp(new_src)
             new_out[new_dst] = new_src
 
